@@ -44,9 +44,37 @@ def subset_canon(impl, model):
 
 class Runner18(vlib.Runner):
     def eval_cases(self, leg, cases):
+        if getattr(leg, "batch_model", False):
+            return self.eval_batch_cases(leg, cases)
         rows = super().eval_cases(leg, cases)
         if getattr(leg, "set_valued", False):
             rows = [(c, subset_canon(i, m), m, s, k) for (c, i, m, s, k) in rows]
+        return rows
+
+
+    def eval_batch_cases(self, leg, cases):
+        """leg c18.batch: the implementation gets the case as it is (one HandleFileEventChanges call per `+`-joined group
+        of events); the MODEL processes a batch event by event (Model/ModulePath.v pstep, one op per event: the theorem
+        C18_events_full_proved is about every list of ops), so it is run - leg c18.project of the driver - on the same
+        events one by one, and the steps at the ends of the groups are compared. Changed events (m) of a file that is
+        there are no ops of the index model (nothing is inserted or removed)."""
+        impl = vlib.run_worker([self.impl_exe, leg.name], cases, leg.per_case_s, leg.jobs)
+        flat, keep = [], []
+        for c in cases:
+            f = c.split(" ")
+            evs, ends = [], [0]
+            if f[4] != "-":
+                for g in f[4].split(","):
+                    evs += [e for e in g.split("+") if e[0] != "m"]
+                    ends.append(len(evs))
+            flat.append(" ".join(f[:4] + [",".join(evs) or "-"]))
+            keep.append(ends)
+        mod = vlib.run_worker([self.model_exe, "c18.project"], flat, 0.05)
+        rows = []
+        for c, i, m, ends in zip(cases, impl, mod, keep):
+            parts = (m.split("\t") + ["-", "-"])[:3]
+            pick = lambda col: ";".join(col.split(";")[k] for k in ends) if col.count(";") >= ends[-1] else col
+            rows.append((c, subset_canon(i, pick(parts[0])), pick(parts[0]), pick(parts[1]), parts[2]))
         return rows
 
 
@@ -386,8 +414,8 @@ def extractable(kind, s):
     return FIXED_CURSOR or ('require("' + s + '")').find(s) == 9
 
 
-def gen_project(rng, tier):
-    n = {"quick": 2500, "thorough": 50000, "search": 400}[tier]
+def gen_project(rng, tier, n=None):
+    n = n or {"quick": 2500, "thorough": 50000, "search": 400}[tier]
     out = []
     # calcMatchStrScore measures from the occurrence of "/" + name (fixes/C18-score-position.diff): the extreme tree in
     # which the analysis and definition chose different files for the module "a" (found inside ".lua" by the text
@@ -466,6 +494,70 @@ def gen_project(rng, tier):
     return out
 
 
+def gen_batch(rng, tier):
+    """ONE batch of file events (one workspace/didChangeWatchedFiles notification) naming the SAME path more than once
+    (seeded changes C18-6 / C08-6: events de-duplicated / filtered per path inside a batch): `d c` = file replaced on disk by
+    remove + create (there afterwards: still indexed, no type-6, definition finds it), `c d` = short-lived file (gone: not
+    indexed, type-6), `m d`, `c m`, three events; with and without other paths in the same batch. Trees, current file and
+    references come from gen_project; the paths are the modules of the tree and the files its events create."""
+    n = {"quick": 600, "thorough": 12000, "search": 300}[tier]
+    out = []
+    for base in gen_project(rng, tier, n=n):
+        f = base.split(" ")
+        present = set(bytes.fromhex(x[1:]).decode("latin1") for x in f[1].split(",") if x[0] == "L")
+        cands = sorted(present | set(bytes.fromhex(e[1:]).decode("latin1") for e in (f[4].split(",") if f[4] != "-" else [])))
+        # the files the references are about first
+        want = []
+        for r in f[3].split(","):
+            stem = bytes.fromhex(r[1:]).decode("latin1")
+            stem = stem[2:] if stem.startswith("./") else stem
+            stem = stem[:-4] if r[0] in "dD" else stem.replace(".", "/")
+            want += [c for c in cands if c[:-4].endswith(stem) or c[:-4].endswith(stem + "/init")]
+        groups = []
+        for _ in range(rng.choice([1, 1, 2, 3])):
+            x = rng.choice(want) if want and rng.random() < 0.75 else rng.choice(cands)
+            evs = []
+            for _ in range(rng.choice([2, 2, 2, 3])):
+                if x in present:
+                    if rng.random() < 0.7:
+                        evs.append("d" + hx(x)); present.discard(x)
+                    else:
+                        evs.append("m" + hx(x))
+                else:
+                    evs.append("c" + hx(x)); present.add(x)
+            for y in rng.sample(cands, min(len(cands), rng.choice([0, 0, 0, 1, 2]))):
+                if y == x:
+                    continue
+                if y in present:
+                    e = rng.choice("dm") + hx(y)
+                    if e[0] == "d":
+                        present.discard(y)
+                else:
+                    e = "c" + hx(y); present.add(y)
+                evs.insert(rng.randrange(len(evs) + 1), e)
+            groups.append("+".join(evs))
+            if rng.random() < 0.3:
+                # an ordinary single event in between
+                y = rng.choice(cands)
+                if y in present:
+                    groups.append("d" + hx(y)); present.discard(y)
+                else:
+                    groups.append("c" + hx(y)); present.add(y)
+        out.append(" ".join(f[:4] + [",".join(groups)]))
+    return out
+
+
+def shrink_batch(case):
+    f = case.split(" ")
+    gl = f[4].split(",") if f[4] != "-" else []
+    for i, g in enumerate(gl):
+        es = g.split("+")
+        if len(es) > 1:
+            for j in range(len(es)):
+                yield " ".join(f[:4] + [",".join(gl[:i] + ["+".join(es[:j] + es[j + 1:])] + gl[i + 1:])])
+    yield from shrink_project(case)
+
+
 def project_describe(c):
     try:
         dec = lambda h: "" if h == "-" else bytes.fromhex(h).decode("latin1")
@@ -473,7 +565,7 @@ def project_describe(c):
         return "files=[%s] cur=%s refs=[%s] events=[%s]" % (
             " ".join(x[0] + ":" + dec(x[1:]) for x in f[1].split(",")), dec(f[2]),
             " ".join(x[0] + ":" + dec(x[1:]) for x in f[3].split(",")),
-            " ".join(x[0] + ":" + dec(x[1:]) for x in f[4].split(",")) if f[4] != "-" else "")
+            " ".join("+".join(x[0] + ":" + dec(x[1:]) for x in g.split("+")) for g in f[4].split(",")) if f[4] != "-" else "")
     except Exception:
         return c[:200]
 
@@ -502,14 +594,18 @@ LEGS = [
         nontrivial=lambda c: c.split(" ")[6].count(".") > 0),
     Leg("c18.project", gen_project, shrink=shrink_project, per_case_s=1.0, describe=project_describe,
         nontrivial=lambda c: c.split(" ")[4] != "-"),
+    # batches of events naming one path several times (the model takes the batch event by event: Runner18.eval_batch_cases)
+    Leg("c18.batch", gen_batch, shrink=shrink_batch, per_case_s=1.0, describe=project_describe),
 ]
 LEGS[2].set_valued = True
 LEGS[5].set_valued = True
+LEGS[6].batch_model = True
 
 TRUSTED = vlib.TRUSTED_COMMON + [
     "oracle: the file system (filefolder.IsFileExist behind FileExistCache) = Section variable disk; the OCaml driver's path normalisation stands for the OS",
     "oracle: Go's regular-expression engine on the line under the cursor (stringutil.GetOpenFileStr: WHERE the import expressions and their quoted literals match - harness leg c18.cursor_rx); modelled on top of it: which literal holds the cursor (cursor_pick), the candidate list (open_list)",
     "modelled, tied by correspondence: common.FileIndexInfo (Insert/Remove/lookups) with common.LuaSuffixIndex / CompleteFilePathToPreStr, calcMatchStrScore, GetBestMatchReferFile / GetBestMatchSuffixFile (the best-scored candidate with the least path), FileResult.CheckReferFile, ReanalyseReferInfo on create/delete events, the tail of stringutil.GetOpenFileStr, FindOpenFileDefine; the variants before each repair are kept in Coq under one boolean per repair (ocaml/c18_run.ml fixed_*)",
+    "leg c18.batch: one HandleFileEventChanges call with several events, the same path named more than once; the model takes the batch event by event (the driver's c18.project leg on the flattened events, the steps at the batch ends compared: checks/c18.py eval_batch_cases); a Changed event of an indexed file is no op of the index model; Changed of a file that is not indexed is not generated here (C08 class changed_unknown)",
     "assumed configuration shape: one workspace root, no sub-directories / client ext path, first analysis pass; no file-type associations (every workspace file ends in .lua: guard all_lua of the resolution theorems; a workspace with another indexed file type is run but makes no demand, class non_lua_file)",
 ]
 
